@@ -2,19 +2,23 @@
    a case is a whole history on the real application; after every operation the harness records
    what the real stores show; gov_mismatch replays the history on the model and compares. *)
 From Coq Require Import ZArith List Bool.
-From FxV Require Import lib.Dec model.M_Gov.
+From FxV Require Import lib.Dec model.M_Gov model.M_GovShape gen.Gen_GovShape.
 Import ListNotations.
 Open Scope Z_scope.
 
 Record pobs := { po_id : Z; po_status : Z; po_exp : bool; po_total : Z; po_deps : list (Z * Z);
                  po_vend : Z; po_tally : list Z }.
-(* ob_fx: what executed proposal messages left in other modules, as far as the harness can read it
-   back: [parity of the erc20 pair's enabled flag; crosschain eth AverageBlockTime] *)
+(* ob_fx: what executed proposal messages and payouts left outside the governance module, as far as
+   the harness can read it back:
+   [parity of the erc20 pair's enabled flag; crosschain eth AverageBlockTime;
+    total supply of the deposit denomination relative to the start of the history, net of the
+    harness's own mints (inflation is switched off in the harness chain);
+    community pool balance of the deposit denomination relative to the start] *)
 Record obs := { ob_res : Z; ob_props : list pobs; ob_gov : Z; ob_bals : list (Z * Z);
                 ob_inactive : list Z; ob_active : list Z; ob_fx : list Z }.
 
 Record gov_case := { gc_fixed : bool; gc_params : params; gc_bals : list (Z * Z);
-                     gc_custom : list (Z * cparams); gc_abt0 : Z; gc_steps : list (op * obs) }.
+                     gc_custom : list (Z * cparams); gc_abt0 : Z; gc_steps : list (gop * obs) }.
 
 Definition mk_params (mind expd maxdep vp evp q th eth veto mir mdr cr : Z) (cd : dest)
            (bp bq bv : bool) : params :=
@@ -31,7 +35,7 @@ Definition mk_pobs (id st : Z) (e : bool) (tot : Z) (deps : list (Z * Z)) (vend 
 Definition mk_obs (r : Z) (ps : list pobs) (g : Z) (b : list (Z * Z)) (ia ac fxs : list Z) : obs :=
   {| ob_res := r; ob_props := ps; ob_gov := g; ob_bals := b; ob_inactive := ia; ob_active := ac; ob_fx := fxs |}.
 Definition mk_gov_case (fixed : bool) (P : params) (b : list (Z * Z)) (c : list (Z * cparams)) (abt0 : Z)
-           (st : list (op * obs)) : gov_case :=
+           (st : list (gop * obs)) : gov_case :=
   {| gc_fixed := fixed; gc_params := P; gc_bals := b; gc_custom := c; gc_abt0 := abt0; gc_steps := st |}.
 
 (* effect tags used by the harness: 400000.. = one ToggleTokenConversion of the registered pair,
@@ -40,6 +44,10 @@ Definition toggle_parity (e : list Z) : Z :=
   Z.of_nat (length (filter (fun t => (400000 <=? t) && (t <? 500000)) e)) mod 2.
 Definition last_abt (abt0 : Z) (e : list Z) : Z :=
   match filter (fun t => (5000 <=? t) && (t <? 8000)) e with t :: _ => t | [] => abt0 end.
+(* 10^40 + a = a community-pool spend of a units of the deposit denomination *)
+Definition spend_base : Z := 10 ^ 40.
+Definition spent_from_pool (e : list Z) : Z :=
+  fold_right (fun t acc => if spend_base <=? t then (t - spend_base) + acc else acc) 0 e.
 
 Definition ecode_num (e : ecode) : Z :=
   match e with
@@ -73,7 +81,8 @@ Definition project (abt0 : Z) (r : result) (s : state) (accts : list Z) : obs :=
      ob_bals := map (fun a => (a, bal s a)) accts;
      ob_inactive := map snd (inactive_queue (props s));
      ob_active := map snd (active_queue (props s));
-     ob_fx := [toggle_parity (ext s); last_abt abt0 (ext s)] |}.
+     ob_fx := [toggle_parity (ext s); last_abt abt0 (ext s); - burned s;
+               pool_in s - spent_from_pool (ext s)] |}.
 
 Fixpoint list_eqb {A} (e : A -> A -> bool) (a b : list A) : bool :=
   match a, b with
@@ -94,31 +103,34 @@ Definition obs_eqb (a b : obs) : bool :=
 Definition bal_of_list (l : list (Z * Z)) : Z -> Z := fun a => amount_of a l.
 
 (* index of the first step whose observation differs from the model (-1: none) *)
-Fixpoint first_bad (P : params) (kf : keyfun) (abt0 : Z) (s : state) (i : Z) (st : list (op * obs)) : Z :=
+Fixpoint first_bad (kf : keyfun) (abt0 : Z) (ps : params * state) (i : Z) (st : list (gop * obs)) : Z :=
   match st with
   | [] => -1
   | (o, ob) :: r =>
-      let '(res, s', _) := step P kf s o in
-      if obs_eqb (project abt0 res s' (map fst (ob_bals ob))) ob then first_bad P kf abt0 s' (i + 1) r else i
+      let '(res, ps', _) := gstep kf ps o in
+      if obs_eqb (project abt0 res (snd ps') (map fst (ob_bals ob))) ob then first_bad kf abt0 ps' (i + 1) r else i
   end.
 
 Definition gov_first_bad (c : gov_case) : Z :=
-  first_bad (gc_params c) (if gc_fixed c then kf_fixed else kf_code) (gc_abt0 c)
-            (init (bal_of_list (gc_bals c)) (gc_custom c)) 0 (gc_steps c).
+  first_bad (if shape_is_fixed gen_shape then kf_fixed else kf_code) (gc_abt0 c)
+            (gc_params c, init (bal_of_list (gc_bals c)) (gc_custom c)) 0 (gc_steps c).
 
-Definition gov_mismatch (c : gov_case) : bool := negb (gov_first_bad c =? -1).
+(* the key function is the one the translator read off the sources (gen_shape); the harness's dynamic
+   probe of the three exported lookup functions (gc_fixed) must agree with that reading *)
+Definition gov_mismatch (c : gov_case) : bool :=
+  negb (gov_first_bad c =? -1) || negb (Bool.eqb (gc_fixed c) (shape_is_fixed gen_shape)).
 
 (* for debugging a mismatch by hand: what the model shows after step i *)
-Fixpoint model_obs_at (P : params) (kf : keyfun) (abt0 : Z) (s : state) (i : nat) (st : list (op * obs)) : option obs :=
+Fixpoint model_obs_at (kf : keyfun) (abt0 : Z) (ps : params * state) (i : nat) (st : list (gop * obs)) : option obs :=
   match st with
   | [] => None
   | (o, ob) :: r =>
-      let '(res, s', _) := step P kf s o in
+      let '(res, ps', _) := gstep kf ps o in
       match i with
-      | O => Some (project abt0 res s' (map fst (ob_bals ob)))
-      | S j => model_obs_at P kf abt0 s' j r
+      | O => Some (project abt0 res (snd ps') (map fst (ob_bals ob)))
+      | S j => model_obs_at kf abt0 ps' j r
       end
   end.
 Definition gov_model_obs (c : gov_case) (i : nat) : option obs :=
-  model_obs_at (gc_params c) (if gc_fixed c then kf_fixed else kf_code) (gc_abt0 c)
-               (init (bal_of_list (gc_bals c)) (gc_custom c)) i (gc_steps c).
+  model_obs_at (if shape_is_fixed gen_shape then kf_fixed else kf_code) (gc_abt0 c)
+               (gc_params c, init (bal_of_list (gc_bals c)) (gc_custom c)) i (gc_steps c).
